@@ -219,3 +219,8 @@ package ast
 //@   modifies nothing
 //@   opt nosafety
 //@   guard return in loop 1: u.size > 0 && (nanos / u.size) * u.size == nanos && result == sprintf("%d%s", nanos / u.size, u.suffix)
+
+// Printing a clause reads it (used in error messages).
+//@ func (c Clause) String()
+//@   trusted
+//@   modifies nothing
